@@ -105,6 +105,10 @@ class C02(Prop):
         dtype = r.choice(["float64"] * 4 + ["float32", "longdouble", "longdouble"])
         want = {"separable"} if gen.method_family(method) == "splitting" else None
         prob = gen.gen_problem(rp, dtype=dtype, want=want)
+        rbuf = gen.sub(seed, "rhsbuffer")
+        use_buffer = gen.method_family(method) == "splitting" and rbuf.random() < 0.35
+        if use_buffer:
+            prob = gen.gen_problem(rp, family="ballistic", dtype=dtype)
         N = int(np.prod(prob["shape"]))
         rtol = atol = None
         if gen.is_adaptive(method) or gen.is_implicit(method):
@@ -125,6 +129,8 @@ class C02(Prop):
                "system": {"t0": t0, "tf": t0 + 1.0, "dt": 0.1, "method": method, "rtol": rtol, "atol": atol, "dense": False, "jac": "none",
                           "constants": {"k": r.choice([1.0, 1.0, gen.rnd(r, 0.5, 1.5, 3)])}},
                "knobs": {}, "events": [], "ops": ops, "faults": []}
+        if use_buffer:
+            scn["system"]["rhs_buffer"] = True
         rd = gen.sub(seed, "hdiv")
         for op in ops:
             if rd.random() < 0.4:
